@@ -23,7 +23,9 @@ func evilURL(rng *rand.Rand) string {
 
 // hostileEndpoint draws a registered endpoint URL with URL / HTML / XML special characters.
 func hostileEndpoint(rng *rand.Rand, host string, k int, redirectSafe bool) string {
-	base := fmt.Sprintf("https://%s/ep/%d", host, k)
+	// mostly https on the default port; now and then plain http (intranet consumers) and explicit ports
+	origin := []string{"https://" + host, "https://" + host, "https://" + host, "http://" + host + ":8080", "http://" + host, "https://" + host + ":8443", "http://localhost:3000", "http://10.1.2.3"}[rng.Intn(8)]
+	base := fmt.Sprintf("%s/ep/%d", origin, k)
 	suf := []string{"", "", "?a=1&b=2", "?q=%22x%22", "/pa%20th", "/caf%C3%A9", "?r=https%3A%2F%2Fother.example%2F", "/a;b=c", "?x=1&amp;y=2", "/%41%2f", "?empty=", "/'single'", "/(paren)", "/a+b", "/~user", "?a[]=1"}
 	if !redirectSafe {
 		suf = append(suf, "/pa th", "/<b>", "/\"dq\"", "/ü", "/中", "?q=\"x\"&r=<y>", "/a\tb", "/`bt`", "/{{x}}", "?a=1 b=2", "/\\back")
